@@ -507,7 +507,7 @@ func (s *statusSeen) add(family string, status int, code connect.Code, key strin
 var agreedHTTPToCode = map[int]connect.Code{401: connect.CodeUnauthenticated, 403: connect.CodePermissionDenied, 404: connect.CodeUnimplemented, 429: connect.CodeUnavailable, 502: connect.CodeUnavailable, 503: connect.CodeUnavailable, 504: connect.CodeUnavailable}
 
 func c06(run *ev.Run) int {
-	run.SetRule("cases = crafted (status, headers, body, trailers) from three generators - grammar-based hostile responses per protocol (adversarial grpc-status/message/details, JSON error bodies, end-of-stream objects, flags, lengths, encodings, every status class), mutations of recorded valid responses, random bytes - x 3 protocols x 2 codecs x 4 kinds; oracle on every operation result: returns (watchdog), no panic, error => *connect.Error with code != 0, status-derived code for non-200 without valid protocol error, case-insensitive metadata lookups; distinct by (generator class, protocol, codec, kind, outcome class)")
+	run.SetRule("cases = crafted (status, headers, body, trailers) from three generators - grammar-based hostile responses per protocol (adversarial grpc-status/message/details, JSON error bodies, end-of-stream objects, flags, lengths, encodings, every status class), mutations of recorded valid responses, random bytes - x 3 protocols x 2 codecs x 4 kinds; oracle on every operation result: returns (watchdog), no panic, error => *connect.Error with code != 0, status-derived code for non-200 without valid protocol error, case-insensitive metadata lookups; distinct by (generator class, protocol, codec, kind, outcome class); bare responses from a canned HTTPClient (nil Header and/or Trailer maps) carrying a server error with metadata")
 	run.Assume("clients use WithReadMaxBytes(1 MiB): without a limit a lying 4 GiB length only costs time/memory (observed in the design phase), which is outside this property")
 	run.Assume("header maps handed to the client are canonical-keyed, as net/http guarantees; wire casing is exercised for in-body metadata")
 	n := run.Pick(1200, 60000) // per (protocol, codec, kind)
